@@ -29,7 +29,7 @@ GraceStop == 500
 Step(e) ==
   \/ /\ e.ev = "Tpl"
      /\ LET r == RoundOf(e)
-            obliged == HasElig(r) /\ e.tip \in {"none", "same"} /\ e.stopms = -1 /\ e.h \notin T.mined
+            obliged == HasElig(r) /\ e.tip \in {"none", "same"} /\ e.stopms = -1 /\ e.h \notin T.mined /\ T.stopAt < 0
         IN T' = [T EXCEPT !.rounds = (e.round :> r) @@ @, !.due = IF obliged THEN @ \cup {e.round} ELSE @,
                           !.tipAt = (e.round :> [kind |-> e.tip, ms |-> -1]) @@ @]
   \/ e.ev = "Sign" /\ e.round # -1 /\ T' = T
@@ -44,12 +44,13 @@ Step(e) ==
      /\ e.signoff >= e.off - AllowAhead                          \* solved within the look-ahead
      /\ T.tipAt[e.round].kind # "switched"                       \* the best chain had moved on before the round began
      /\ (T.tipAt[e.round].kind = "better" /\ T.tipAt[e.round].ms >= 0) => e.signms <= T.tipAt[e.round].ms + GraceTip     \* M1
-     /\ ~T.stopped /\ (T.stopAt >= 0 => e.signms <= T.stopAt + GraceStop)                                                \* M2
+     /\ ~T.stopped /\ (T.stopAt >= 0 => e.signabs <= T.stopAt + GraceStop)                                               \* M2
      /\ e.h \notin T.mined
      /\ T' = [T EXCEPT !.due = @ \ {e.round}, !.mined = IF e.res = "accept" THEN @ \cup {e.h} ELSE @,
                        !.accepted = IF e.res = "accept" THEN @ + 1 ELSE @]
   \/ e.ev = "NewBlock" /\ T.newblocks < T.accepted /\ T' = [T EXCEPT !.newblocks = @ + 1]
-  \/ e.ev = "Stop" /\ T' = [T EXCEPT !.stopAt = e.ms]
+  \* a stop request (it may come from an earlier round's schedule) ends every obligation to produce a block
+  \/ e.ev = "Stop" /\ T' = [T EXCEPT !.stopAt = e.abs, !.due = {}]
   \/ e.ev = "Stopped" /\ e.prompt /\ T' = [T EXCEPT !.stopped = TRUE]
   \* every round that had to produce a block did; every accepted block was announced
   \/ e.ev = "End" /\ T.due = {} /\ T.newblocks = T.accepted /\ T' = T
